@@ -35,6 +35,7 @@ class InitBoom(Exception):
 CALL_LOG = []  # thread workers, same process: (tag, worker_index, [ids] | id, batched)
 CALL_LOCK = threading.Lock()
 ACTIVE = {}  # tag -> number of calls currently running (thread workers)
+PROBE = None  # optional callable sampled inside every call of a thread worker (e.g. server.backlog)
 MARK = 'SITE-MARK-7f3a'  # appears in the source line that raises, hence in tracebacks
 
 
@@ -119,6 +120,8 @@ class TagWorker(Worker):
         with CALL_LOCK:
             ACTIVE[tag] = ACTIVE.get(tag, 0) + 1
         try:
+            if PROBE is not None:
+                PROBE()
             if self.batch_size > 0:
                 if not isinstance(x, list):
                     self._log(['NOT-A-LIST', repr(x)[:100]], True)
